@@ -46,7 +46,8 @@ def strategy_(draw, tier):
                          old=draw(st.booleans())))
     cmd = draw(st.sampled_from(["empty", "empty_days", "rm_star", "rm_name", "empty_trash_dir"]))
     return {"layout": tw.layout, "uid": tw.uid, "ents": ents, "cmd": cmd,
-            "indirection": indirection}
+            "indirection": indirection,
+            "flags": draw(st.sampled_from([[], [], ["-v"], ["-v"], ["-vv"], ["--dry-run"], ["--dry-run", "-v"]]))}
 
 
 def strategy(tier):
@@ -129,10 +130,11 @@ def run_case(case):
     sandbox.build_world(spec)
     before = sandbox.snapshot()
     cmd = case["cmd"]
+    fl = list(case.get("flags", []))   # trash-rm has no options: flags apply to trash-empty only
     if cmd == "empty":
-        res = runner.run(spec, "trash-empty", [])
+        res = runner.run(spec, "trash-empty", fl)
     elif cmd == "empty_days":
-        res = runner.run(spec, "trash-empty", ["30"], env={"TRASH_DATE": "2020-01-01T00:00:00"})
+        res = runner.run(spec, "trash-empty", fl + ["30"], env={"TRASH_DATE": "2020-01-01T00:00:00"})
     elif cmd == "rm_star":
         res = runner.run(spec, "trash-rm", ["*"])
     elif cmd == "rm_name":
@@ -147,7 +149,7 @@ def run_case(case):
             import os
             os.symlink(td, sandbox.wp("/td-link"))
             before = sandbox.snapshot()
-        res = runner.run(spec, "trash-empty", ["--trash-dir", arg])
+        res = runner.run(spec, "trash-empty", fl + ["--trash-dir", arg])
     after = sandbox.snapshot()
     tags = dict(cmd=cmd, special="dot_trashinfo" if "dot_trashinfo" in special_seen else "other")
     tdirs = [t for t in oracle.trash_dirs_in(before)]
@@ -188,10 +190,12 @@ def run_case(case):
                 out.fail("op_outside", "%s issued %s on %s (= %s), outside files/ and info/" % (
                     cmd, name, q, canon), **tags)
                 break
-    out.classes += ["cmd:" + cmd, "indirection:" + case["indirection"], "exit:%d" % res.code] + \
+    out.classes += ["cmd:" + cmd, "indirection:" + case["indirection"], "exit:%d" % res.code,
+                    "flags:" + ("+".join(fl) if cmd.startswith("empty") else "n/a")] + \
         ["special:" + s for s in special_seen] + ["link:" + l for l in link_kinds]
     if link_kinds:
-        out.key = [cmd, sorted(link_kinds), sorted(special_seen - {"none"}), case["indirection"]]
+        out.key = [cmd, sorted(link_kinds), sorted(special_seen - {"none"}), case["indirection"],
+                   fl if cmd.startswith("empty") else []]
         out.sample = {"cmd": cmd, "links": sorted(link_kinds), "special": sorted(special_seen),
                       "indirection": case["indirection"], "exit": res.code,
                       "mutating_ops": sum(1 for t in res.trace if t[1])}
